@@ -1,5 +1,51 @@
+/-
+C18 — Decoding a stream does not depend on how the transport chunks it.
+Property theorems only. Model: Model/Chunked.lean (a reader that delivers a byte stream in arbitrary
+pieces; `fetch` = what a decoder site sees with one `Read` or with `io.ReadFull`; the packfile
+reader written against it). The read mode of every site is a regenerated fact.
+-/
 import WrglModel.Model.Chunked
 import WrglModel.Model.ReadModes
+import WrglModel.Lemmas.C18
 namespace Wrgl
-theorem C18_placeholder : True := trivial
+
+/-- tie to the source: no decoder site (packfile version/header/body, Parser.NextBytes,
+    objline.ReadBytes, Table.readBlock, BlockIndex.ReadFrom, uint/float list, ReadBlockFrom)
+    consumes its reader with a single `Read` call -/
+theorem C18_fact_no_single_read : Facts.readModeSingleSites = [] := by decide
+
+theorem C18_all_sites_full (s : Site) : Facts.readMode s = .full := by
+  simp [Facts.readMode, C18_fact_no_single_read]
+
+/-- `io.ReadFull` over ANY chunking (1-byte reads, reads ending mid-header, empty reads skipped,
+    data+EOF in one call) returns the next n bytes of the stream and leaves the rest. -/
+theorem C18_readFull_chunk_independent (c : Chunked) (n : Nat) :
+    (c.readFullN n).1 = c.content.take n ∧ (c.readFullN n).2.content = c.content.drop n :=
+  ⟨(readFullN_content c n).1, (readFullN_content c n).2.1⟩
+
+/-- The packfile reader as implemented (read modes taken from the source): decoded objects, errors
+    and the end-of-stream condition are the same for every two ways of chunking the same bytes,
+    and equal the whole-buffer result. -/
+theorem C18_packfile (c1 c2 : Chunked) (h : c1.content = c2.content) :
+    packfileC Facts.readMode c1 = packfileC Facts.readMode c2 :=
+  packfileC_chunk_independent Facts.readMode C18_all_sites_full c1 c2 h
+
+theorem C18_packfile_eq_whole_buffer (c : Chunked) :
+    packfileC Facts.readMode c = packfileFlat c.content :=
+  packfileC_eq_flat Facts.readMode C18_all_sites_full c
+
+/-- A site that trusts a single `Read` breaks the property (the code before the repair): the same
+    valid packfile is accepted whole and rejected when the first read returns one byte. -/
+theorem C18_single_read_witness :
+    let mode : Site → ReadMode := fun s => if s = .packVersion then .single else .full
+    let bytes : Bytes := [80, 65, 67, 75, 0, 0, 0, 1]
+    packfileC mode { chunks := [bytes], eofWithLast := false } ≠
+    packfileC mode { chunks := [[80], [65, 67, 75, 0, 0, 0, 1]], eofWithLast := false } :=
+  single_read_is_chunk_dependent
+
+/-- non-vacuity: a packfile with one object decodes under a hostile chunking with data+EOF -/
+example : packfileC Facts.readMode
+    { chunks := [[80], [65, 67], [75, 0, 0, 0], [1, 0x91, 0x00], [7]], eofWithLast := true } =
+    .ok (1, [(1, [7])]) := by decide
+
 end Wrgl
